@@ -662,6 +662,91 @@ theorem closed_only_after_hangup (ops : List Op) (op : Op) (caller : Nat)
     ∃ q ∈ (run ops).pending, caller ∈ q.senders ∧ ∃ c' ∈ q.senders, c' ∈ (run ops).hung :=
   step_closed h
 
+/-! ### every sender is served
+
+The three lemmas below are the ones that read `Gen.sendServesAllCallers` (regenerated from the sender loops of
+`event/kad.rs`); everything else about `deliver` is proved for both values of the flag. -/
+
+/-- every sender is served (`Gen.sendServesAllCallers`): nobody observes a closed channel -/
+theorem deliver_no_closed {hung cs : List Nat} {o : Outcome} {x : Nat}
+    (h : (x, Outcome.closed) ∈ (deliver hung cs o).1) : o = .closed := by
+  induction cs with
+  | nil => simp [deliver] at h
+  | cons c cs ih =>
+    simp only [deliver] at h
+    split at h
+    · simp only [sendServesAllCallers, if_true] at h
+      exact ih h
+    · rcases List.mem_cons.1 h with h | h
+      · simp only [Prod.mk.injEq] at h
+        exact h.2.symm
+      · exact ih h
+
+/-- a live sender receives exactly the outcome sent, whoever else hung up -/
+theorem deliver_live {hung cs : List Nat} {o : Outcome} {x : Nat} (hx : x ∈ cs) (hl : x ∉ hung) :
+    (x, o) ∈ (deliver hung cs o).1 := by
+  induction cs with
+  | nil => simp at hx
+  | cons c cs ih =>
+    simp only [deliver]
+    split
+    · rename_i hc
+      have hc' : c ∈ hung := by simpa using hc
+      simp only [sendServesAllCallers, if_true]
+      rcases List.mem_cons.1 hx with e | hx
+      · subst e; exact absurd hc' hl
+      · exact ih hx
+    · rcases List.mem_cons.1 hx with e | hx
+      · subst e; exact List.mem_cons_self ..
+      · exact List.mem_cons_of_mem _ (ih hx)
+
+/-- no step lets any caller observe a closed channel (every sender is served, `Gen.sendServesAllCallers`) -/
+theorem step_no_closed {s : State} {op : Op} {x : Nat} : (x, Outcome.closed) ∉ (step s op).2.deliveries := by
+  intro h
+  cases op with
+  | get key caller cfg =>
+    simp only [step] at h
+    split at h
+    · simp at h
+    · split at h <;> simp at h
+  | found qid p c fk =>
+    simp only [step] at h
+    split at h
+    · simp at h
+    · split at h
+      · simp at h
+      split at h
+      · simp only [terminate] at h
+        exact completedOutcome_ne_closed _ _ _ _ (deliver_no_closed h)
+      · simp at h
+  | finished qid =>
+    simp only [step] at h
+    split at h
+    · simp at h
+    · simp only [terminate] at h
+      exact finishedOutcome_ne_closed _ (deliver_no_closed h)
+  | notFound qid =>
+    simp only [step] at h
+    split at h
+    · simp at h
+    · simp only [terminate] at h
+      cases deliver_no_closed h
+  | quorumFailed qid =>
+    simp only [step] at h
+    split at h
+    · simp at h
+    · simp only [terminate] at h
+      cases deliver_no_closed h
+  | timeout qid =>
+    simp only [step] at h
+    split at h
+    · simp at h
+    · simp only [terminate] at h
+      exact timeoutOutcome_ne_closed _ (deliver_no_closed h)
+  | hangup caller =>
+    simp only [step] at h
+    split at h <;> simp at h
+
 /-- **Full clause "a value or a specific error".** Nothing a step puts on a caller's channel is a bare dropped
 channel (`closed` = `InternalMsgChannelDropped` at the caller, no value and no `GetRecordError`). -/
 def ValueOrSpecificError : Prop :=
